@@ -11,7 +11,7 @@ REGISTERED = {(m["name"], p) for m in MUTANTS for p in m["props"]}
 
 def seeds():
     rows = []
-    tot = own = any_ = 0
+    tot = own = any_ = oos = 0
     for p in sorted(glob.glob(os.path.join(VERIF, "seeded", "*", "meta.json")), key=lambda x: (os.path.basename(os.path.dirname(x)).split("-")[0], int(os.path.basename(os.path.dirname(x)).split("-")[1]))):
         m = json.load(open(p))
         sid, prop = m["seed"], m["property"]
@@ -21,8 +21,12 @@ def seeds():
         tot += 1
         own += prop in det
         any_ += bool(det)
-        rows.append("| %s | %s | %s | %s | %s |" % (sid, m.get("summary", "").replace("|", "/"), m.get("needs", "").replace("|", "/"), ", ".join(det) or "**none**", ", ".join(miss)))
-    head = "%d confirmed seeded changes; %d caught by the quick tier of at least one check, %d by the check of the property they were written against.\n\n" % (tot, any_, own)
+        none = "**none**"
+        if m.get("scope_note"):
+            oos += 1
+            none = "none (outside the listed properties)"
+        rows.append("| %s | %s | %s | %s | %s |" % (sid, m.get("summary", "").replace("|", "/"), m.get("needs", "").replace("|", "/"), ", ".join(det) or none, ", ".join(miss)))
+    head = "%d confirmed seeded changes; %d caught by the quick tier of at least one check, %d by the check of the property they were written against; %d kept for the record although what they break lies outside the listed properties.\n\n" % (tot, any_, own, oos)
     head += "| change | what it does | needs | caught by (quick) | run, not caught |\n|---|---|---|---|---|\n"
     return head + "\n".join(rows) + "\n"
 
